@@ -71,6 +71,31 @@ func c08MapScripts(k *h.Case, g *spec.Gen) *spec.MapScripts {
 		}
 		m.Entries = append(m.Entries, e)
 	}
+	// a plain entry or plain row may simply name the generated label of a sibling inline script
+	// (a reference, not a definition)
+	var inlineNames []string
+	for _, e := range m.Entries {
+		if e.Kind == 1 {
+			inlineNames = append(inlineNames, m.Name+"_"+e.Type)
+		}
+		for j, row := range e.Rows {
+			if row.Body != nil {
+				inlineNames = append(inlineNames, fmt.Sprintf("%s_%s_%d", m.Name, e.Type, j))
+			}
+		}
+	}
+	if len(inlineNames) > 0 && r.IntN(3) == 0 {
+		for _, e := range m.Entries {
+			if e.Kind == 0 && r.IntN(2) == 0 {
+				e.Label = inlineNames[r.IntN(len(inlineNames))]
+			}
+			for _, row := range e.Rows {
+				if row.Body == nil && r.IntN(3) == 0 {
+					row.Label = inlineNames[r.IntN(len(inlineNames))]
+				}
+			}
+		}
+	}
 	return m
 }
 
